@@ -13,7 +13,7 @@ ID = "C13"
 LEVEL = "exploration"
 RULE = ("case = (generated file-level program made of independent top-level forms: definitions, variable declarations / assignments, output "
         "statements; each form rendered on one line) plus erroneous forms from the ill-typed catalogue (wrong argument type, "
-        "wrong arity, undefined name, ambiguous assignment) inserted at drawn positions. Oracle: the '@ ' lines printed by aldor -Gloop reading the "
+        "wrong arity, undefined name, assignment to a top-level constant / function) inserted at drawn positions. Oracle: the '@ ' lines printed by aldor -Gloop reading the "
         "forms from standard input equal, in order, the '@ ' lines of aldor -Ginterp on the same file without the erroneous forms, and the "
         "session shows >= 1 (Error) per erroneous form. Non-trivial = >= 1 erroneous form is followed by >= 2 accepted forms that print; "
         "distinct = hash of the form sequence.")
@@ -25,8 +25,10 @@ BAD = [
     lambda n: "qv%d: MachineInteger := hlpQ();" % n,
     lambda n: "qv%d: MachineInteger := hlpQ((1@MachineInteger), (2@MachineInteger));" % n,
     lambda n: "qv%d: MachineInteger := hlpQ(mkTokQ()$TokQ);" % n,
-]   # (the ambiguous-assignment entry is not used here: the interactive loop may legitimately resolve what a batch compile rejects)
-PRE = [P.TOK_DECL, P.HLP_DECL, "ambQ(): MachineInteger == (1@MachineInteger);", "ambQ(): Integer == (2@Integer);"]
+    # rejected by the scope binder, not by type inference, and about a name that exists at top level
+    lambda n: "cstQ := (4@MachineInteger);",
+]   # ('hlpQ := 6', assignment to a top-level FUNCTION, is not used: known finding C13-K45)   # (the ambiguous-assignment entry is not used here: the interactive loop may legitimately resolve what a batch compile rejects)
+PRE = [P.TOK_DECL, P.HLP_DECL, "ambQ(): MachineInteger == (1@MachineInteger);", "ambQ(): Integer == (2@Integer);", "cstQ: MachineInteger == (3@MachineInteger);"]
 
 
 def forms_of(src):
